@@ -143,6 +143,8 @@ type caCtx struct {
 	acceptedRetry    [][]byte
 	datas            [][]byte
 	batch            bool
+	echo             bool // the genuine server uses SCID = the client's original DCID
+	forceGoodRetry   bool // next Retry: valid tag for the original DCID, foreign SCID
 	clientKind       string
 	srvTPDone        bool // a server closes earlyConnReadyChan when it accepts transport parameters: only once
 }
@@ -164,6 +166,9 @@ func (c *caCtx) genuine() (opTerm string, data []byte, desc string) {
 		scid, key, dcid = c.p.C, c.p.O, c.p.S1
 	} else {
 		scid, key, dcid = c.p.S1, c.p.O, c.p.C
+		if c.echo {
+			scid = c.p.O // a server may use the client's original DCID as its own source connection ID
+		}
 		if st.RcvFirst {
 			scid = st.HsDCID
 		}
@@ -219,6 +224,14 @@ func (c *caCtx) doRetry() bool {
 	default:
 		scid = c.p.R1
 	}
+	force := c.forceGoodRetry
+	c.forceGoodRetry = false
+	if force {
+		ver, scid = c.version, c.pick(c.p.A1, c.p.R1)
+		if bytes.Equal(scid, before.DCID) || len(scid) == 0 {
+			scid = c.p.R2
+		}
+	}
 	token := c.r.Bytes(c.r.Range(1, 24))
 	body, err := quic.VerifRetryBody(quic.Version(ver), c.p.C, scid, token)
 	if err != nil {
@@ -227,7 +240,11 @@ func (c *caCtx) doRetry() bool {
 	good := quic.VerifRetryTag(body, c.p.O, quic.Version(ver)) // the only tag the original DCID authorises
 	tag := append([]byte{}, good...)
 	kind := "good"
-	switch c.r.Intn(12) {
+	sel := c.r.Intn(12)
+	if force {
+		sel = 9 // good
+	}
+	switch sel {
 	case 0:
 		kind = "flip"
 		tag[c.r.Intn(16)] ^= 1 << uint(c.r.Intn(8))
@@ -584,8 +601,22 @@ func runOneConnAccept(w *bufio.Writer, r *u.Rng, idx int, dist map[string]int) {
 	shape := r.Intn(6)
 	done := false
 	c.batch = r.Chance(1, 4)
+	c.echo = !c.server && r.Chance(1, 6)
+	if c.echo {
+		dist["echo-odcid"]++
+	}
 	for i := 0; i < nOps && !done; i++ {
 		k := r.Intn(100)
+		if c.echo && i <= 1 {
+			// genuine first packet whose SCID is the original DCID, then a forged Retry with a valid tag
+			if i == 0 {
+				done = c.doGenuine()
+			} else {
+				c.forceGoodRetry = true
+				done = c.doRetry()
+			}
+			continue
+		}
 		if c.batch && k >= 83 {
 			k = 50 + r.Intn(33) // datagrams only
 		}
